@@ -139,6 +139,22 @@ ADDENDA3 = {
     'C19': ' A test over adjacent rows that decides whether a batch needs merging compares keys, not whole rows.',
 }
 
+ADDENDA4 = {
+    'C01': ' The node compiler writes nothing but encoded nodes (no padding between node extents).',
+    'C02': ' The transition count is not narrowed before the index entry is compared with it.',
+    'C05': ' The agreement counter is initialised inside the loop that takes a new candidate key.',
+    'C06': ' Every item a looping front end draws is offered to add / insert in the same iteration (R06.8).',
+    'C07': ' The adapter returns no error of its own making (every error path forwarded to the sink first).',
+    'C09': ' Node extents tile the body (R01.3 shared).',
+    'C10': ' Only the verify command / verify wrappers call verify() (R10.7): opening a version-1/2 file never depends on a checksum.',
+    'C11': ' A discarding Result method handed on as a function value (Result::ok) counts as swallowing.',
+    'C12': ' The bucket function mixes with non-absorbing arithmetic (no saturating_*).',
+    'C13': ' The CLI builds every FST straight into a file (no in-memory builder, R13.4).',
+    'C14': ' CLI loops that drain a stream do not accumulate its items (R14.5); inside the library only the collector wrappers call the collectors (R14.6).',
+    'C16': ' The reader half of the layout table (offsets of every node accessor) is decided under this property too.',
+    'C19': ' The final partial batch is sent for every non-zero length (len-based tests evaluated); every path that inserts with a merger configured inserts the fold.',
+}
+
 NOT_APPLICABLE = {
     'C17': 'Acceptance is a property of a DFA constructed at run time from the query; no clause has a structural counterpart that a sound static rule within reach could decide (DESIGN.md §6).',
 }
@@ -153,7 +169,7 @@ def main():
         if pid not in CLAIMS:
             continue
         cat, text, note, tech, ref = CLAIMS[pid]
-        text = text + ADDENDA.get(pid, '') + ADDENDA2.get(pid, '') + ADDENDA3.get(pid, '')
+        text = text + ADDENDA.get(pid, '') + ADDENDA2.get(pid, '') + ADDENDA3.get(pid, '') + ADDENDA4.get(pid, '')
         checks.append({
             'property_id': pid,
             'quick_cmd': './check %s --tier quick' % pid,
